@@ -228,9 +228,17 @@ def run_reject(shard, res):
         A, B = make_algebra(c1), make_algebra(c2)
         x = A.multivector(keys=(1,), values=[Fraction(2)]) if A.d else A.multivector(keys=(0,), values=[Fraction(2)])
         y = B.multivector(keys=(1,), values=[Fraction(3)]) if B.d else B.multivector(keys=(0,), values=[Fraction(3)])
+        x2 = A.multivector(keys=tuple(y.keys()), values=[Fraction(5)]) if all(k < len(A) for k in y.keys()) else None
         for op in ops:
             res.evals += 1
             res.nontrivial += 1
+            # the same operator on the same pair of key patterns inside A comes first (whatever gets cached must not
+            # short-cut the identity check of the mixed call)
+            if x2 is not None:
+                try:
+                    getattr(x, op)(x2)
+                except Exception:
+                    pass
             try:
                 r = getattr(x, op)(y)
                 same_d = A.d == B.d
